@@ -470,6 +470,7 @@ def translate():
              "Definition escape_chain : list (N * list N) :=",
              "  [" + ";\n   ".join("(%d%%N, %s)" % (ord(a), coq_codes(b)) for a, b in chain) + "].",
              "Definition repr_limit : nat := %d." % limit,
+             "Definition export_header : list N := %s." % coq_codes(model_doc[1][0][1] if model_doc[1][0][0] == "Lit" else ""),
              "Definition model_doc : tx :=\n  %s." % coq_tx(simp(model_doc)),
              "Definition metamodel_doc : tx :=\n  %s." % coq_tx(simp(mm_doc)),
              "Definition plantuml_doc : tx :=\n  %s." % coq_tx(simp(pu_doc)),
